@@ -18,14 +18,17 @@ From Verif Require Import GoFuncs GenEqTac GenEqSplit GenEqLine GenEqCmd.
 Open Scope Z_scope.
 
 (* ---------- state.Nick: tuple <-> record ---------- *)
-Definition nick_tuple (r : nickrec) : go_state_Nick := (nk_nick r, nk_ident r, nk_host r, nk_name r).
-Definition nick_untuple (t : go_state_Nick) : nickrec :=
-  let '(a, b, c, d) := t in {| nk_nick := a; nk_ident := b; nk_host := c; nk_name := d |}.
+(* the fields of state.Nick that are not modelled (Modes, Channels) are one abstract component of
+   the generated tuple; the nick handlers' model has none: it is [unit] here *)
+Notation gnick := (@go_state_Nick unit).
+Definition nick_tuple (r : nickrec) : gnick := (nk_nick r, nk_ident r, nk_host r, nk_name r, tt).
+Definition nick_untuple (t : gnick) : nickrec :=
+  let '(a, b, c, d, _) := t in {| nk_nick := a; nk_ident := b; nk_host := c; nk_name := d |}.
 Lemma nick_untuple_tuple r : nick_untuple (nick_tuple r) = r.
 Proof. destruct r; reflexivity. Qed.
 Lemma nick_tuple_untuple t : nick_tuple (nick_untuple t) = t.
-Proof. destruct t as [[[a b] c] d]; reflexivity. Qed.
-Definition onick (o : option nickrec) : option go_state_Nick := option_map nick_tuple o.
+Proof. destruct t as [[[[a b] c] d] []]; reflexivity. Qed.
+Definition onick (o : option nickrec) : option gnick := option_map nick_tuple o.
 Lemma onick_inj a b : onick a = onick b -> a = b.
 Proof.
   destruct a as [[a1 a2 a3 a4]|], b as [[b1 b2 b3 b4]|]; cbn; try congruence.
@@ -61,7 +64,7 @@ Lemma go_h_REGISTER_eq c :
   go_client_Conn_h_REGISTER (rc_negotiate c) (onick (rc_me c)) (rc_pass c)
   = if snd (emit_register c) then Panic else Ok (fst (emit_register c)).
 Proof.
-  go_unfold go_client_Conn_h_REGISTER. unfold emit_register, cmd_lines. cbv zeta.
+  go_unfold @go_client_Conn_h_REGISTER. unfold emit_register, cmd_lines. cbv zeta.
   rewrite ?ge_len_pos.
   rewrite (go_Cap_eq no_cmd_cfg), (go_Pass_eq no_cmd_cfg).
   destruct (rc_negotiate c); destruct (negb (beq (rc_pass c) []));
@@ -81,7 +84,7 @@ Proof. reflexivity. Qed.
 
 (* ---------- the nick handlers (C17) ---------- *)
 Section NickHandlersTie.
-  Variable trk : go_state_Tracker tracker.
+  Variable trk : @go_state_Tracker unit unit tracker.
   Hypothesis Hme : forall t, go_state_Tracker_Me trk t = (t, onick (tk_Me t)).
   Hypothesis Hinfo : forall t n i h nm,
     go_state_Tracker_NickInfo trk t n i h nm
@@ -90,7 +93,7 @@ Section NickHandlersTie.
     go_state_Tracker_ReNick trk t o n = (fst (tk_ReNick t o n), onick (snd (tk_ReNick t o n))).
 
   (* the generated result for a model outcome *)
-  Definition of_hout (r : hout) : res (option go_state_Nick * option tracker) :=
+  Definition of_hout (r : hout) : res (option gnick * option tracker) :=
     if ho_panic r then Panic else Ok (onick (cfg_me (ho_st r)), c_st (ho_st r)).
 
   Lemma go_Me_eq s :
@@ -150,7 +153,7 @@ Section NickHandlersTie.
 
   Section With433.
     Variable new_nick : bytes -> bytes.
-    Definition of_hout_out (r : hout) : res (option go_state_Nick * option tracker * list bytes) :=
+    Definition of_hout_out (r : hout) : res (option gnick * option tracker * list bytes) :=
       if ho_panic r then Panic else Ok (onick (cfg_me (ho_st r)), c_st (ho_st r), ho_out r).
 
     Lemma go_h_433_eq s l :
@@ -173,9 +176,9 @@ End NickHandlersTie.
 
 (* ---------- the hypotheses are satisfiable: the model tracker as a Tracker record ----------
    (the methods the nick handlers never call are filled with functions that do nothing) *)
-Definition lift_nick (r : tracker * option nickrec) : tracker * option go_state_Nick :=
+Definition lift_nick (r : tracker * option nickrec) : tracker * option gnick :=
   (fst r, onick (snd r)).
-Definition nh_tracker : go_state_Tracker tracker :=
+Definition nh_tracker : @go_state_Tracker unit unit tracker :=
   {| go_state_Tracker_Associate := fun t _ _ => (t, None);
      go_state_Tracker_ChannelModes := fun t _ _ _ => (t, None);
      go_state_Tracker_DelChannel := fun t _ => (t, None);
